@@ -6,8 +6,8 @@ Stage A of the staged soundness result of DESIGN.md §6: the expression fragment
 (literals, locals, arithmetic/comparison/equality/concatenation, `-`, `!`, `&&`, `||`, `??`).
 `stuck` is the reference evaluator's outcome for every situation in which the real VM would
 execute an instruction on an operand of the wrong kind (a Go panic).
-The statements, closures, calls and exceptions of the fragment are covered by the
-program-level correspondence of `checks/c01.py`, not by a theorem (stages B–D are not proved).
+The statements, closures, calls and exceptions of the fragment (stages B–D) are proved in
+`Props/C01B.lean` for the extended checker of `Model/Mini/TypesB.lean`.
 -/
 namespace Elk.C01
 open Elk.Mini
